@@ -481,13 +481,16 @@ Proof.
     apply cfg_add_renderable; try assumption. apply wf_renderable. exact Hwf.
 Qed.
 
-(* the guard of `config` (Repo.config_args_ok) is exactly [loadable_config_args] *)
-Lemma loadable_config_args_iff : forall key value sec k,
+(* what passes the guard of `config` (Repo.config_args_ok) is in
+   [loadable_config_args] (the guard is stronger: it also refuses a key the
+   loader would read back as another key) *)
+Lemma config_args_ok_loadable : forall key value sec k,
   split_all x2e key = [sec; k] ->
-  (config_args_ok sec key value = true <-> loadable_config_args [key; value]).
+  config_args_ok sec k key value = true -> loadable_config_args [key; value].
 Proof.
-  intros key value sec k Hsp. cbn [loadable_config_args]. rewrite Hsp.
-  exact (ConfigCmdFacts.config_args_ok_iff key value sec k Hsp).
+  intros key value sec k Hsp Hok. cbn [loadable_config_args]. rewrite Hsp.
+  apply (ConfigCmdFacts.config_args_ok_iff key value sec k Hsp) in Hok.
+  destruct Hok as (Hne & Hs & [[Hk _] _] & Hv). repeat split; assumption.
 Qed.
 
 (* whatever its arguments, `config` keeps both files loadable: what passes
@@ -503,7 +506,7 @@ Proof.
   destruct (split_all x2e key) as [|sec [|k [|s3 sr]]] eqn:Esp; try apply hoare_fail.
   apply at_bind_guard. intro Hgd.
   apply (ConfigCmdFacts.config_args_ok_iff key value sec k Esp) in Hgd.
-  destruct Hgd as (Hne & Hs & Hk & Hv).
+  destruct Hgd as (Hne & Hs & [[Hk _] _] & Hv).
   destruct (cfg_written_loadable (x_l x) sec k value Hwl Hne Hs Hk Hv) as (cl & El & Hcl).
   destruct (cfg_written_loadable (x_g x) sec k value Hwg Hne Hs Hk Hv) as (cg & Eg & Hcg).
   rewrite El, Eg.
@@ -568,8 +571,8 @@ Proof.
   destruct args as [|key [|value [|a3 ar]]]; try (left; exact Logic.I).
   destruct (split_all x2e key) as [|sec [|k [|s3 sr]]] eqn:Esp;
     try (left; cbn [loadable_config_args]; rewrite Esp; exact Logic.I).
-  destruct (config_args_ok sec key value) eqn:Eok.
-  - left. apply (loadable_config_args_iff key value sec k Esp). exact Eok.
+  destruct (config_args_ok sec k key value) eqn:Eok.
+  - left. apply (config_args_ok_loadable key value sec k Esp). exact Eok.
   - right. apply ConfigCmdFacts.hostile_config_refused. intros sec0 k0 Hsp0.
     rewrite Esp in Hsp0. injection Hsp0 as <- <-. exact Eok.
 Qed.
@@ -838,8 +841,9 @@ Example cx_newline_in_key_refused :
 Proof. split; vm_compute; reflexivity. Qed.
 
 (* (a'') and what does NOT break it although outside the domain of C20: a tab
-   and surrounding blanks in the value, an '=' in the key
-   (ConfigCmdFacts.ex_not_ok_but_loads: another value / key is read back) *)
+   and surrounding blanks in the value (ConfigCmdFacts.ex_not_ok_but_loads:
+   another value is read back); an '=' in the key (it used to be read back as
+   another key) is now refused, nothing written *)
 Definition cx_hist_odd : list action :=
   [ACmd cx_env CInit;
    ACmd cx_env (CConfig false [str "a.k"%string; [x20; x78; x09; x79; x20]]);
@@ -851,7 +855,7 @@ Example cx_odd_values_load :
   (exists c, ctx_of (run cx_hist_odd w_empty) = Some c /\
              ConfigFacts.wf_cfg (x_l c) /\ ConfigFacts.wf_cfg (x_g c)) /\
   w_lcfg (run cx_hist_odd w_empty)
-  = CfgFile (Some [(str "a"%string, [(str "k"%string, str "xy"%string); (str "p"%string, str "q = v"%string)])]).
+  = CfgFile (Some [(str "a"%string, [(str "k"%string, str "xy"%string)])]).
 Proof.
   assert (Hl : Forall loadable_action cx_hist_odd).
   { unfold cx_hist_odd. repeat (apply Forall_cons || apply Forall_nil);
